@@ -2,6 +2,7 @@ import AdfObdd.ServerGraph
 import AdfObdd.ServerProofs
 import AdfObdd.StoreCanon
 import AdfObdd.ServerAnswers
+import AdfObdd.ServerConcreteProofs
 /-! # C16 — the web service returns the library's answers through its storage round trip
 
     Theorems about the executable models the correspondence runs compare with the real server:
@@ -200,7 +201,7 @@ theorem hyp1 : GraphHyp ["a", "b"] tab1 [4, 5] where
   wf := wfCheck_sound tab1 (by decide)
   nodup := by decide
   vars := by
-    intro i n hi hn
+    intro i n hi _ hn
     have hlt : i < 6 := by
       rcases Nat.lt_or_ge i 6 with h | h
       · exact h
@@ -314,21 +315,23 @@ theorem stored_answers_exact_every_large_bound (a : SAdf) (n : Nat) (fms : List 
   SrvA.stored_answers_exact_every_large_bound a n fms s h
 
 /-- the five strategies without nogood search, any stored table: no hypothesis about bounds at all
-(the name is historical: the sixth strategy is covered by `stored_answers_exact_driver_model`) -/
-theorem stored_answers_exact_driver_model_partial (a : SAdf) (n : Nat) (fms : List Fm) (s : Strategy)
+(complete as it stands; the sixth strategy is `stored_answers_exact_driver_model`; formerly
+`…_driver_model_partial`) -/
+theorem stored_answers_exact_driver_model_no_search (a : SAdf) (n : Nat) (fms : List Fm) (s : Strategy)
     (h : SrvA.Denotes a n fms) (hs : s ≠ .stableNogood) :
     ∃ res, solveAdf a s = .ok res ∧
       (SrvA.storedI3 res).Perm (Cli.specSection n (CliF.tablesOf n fms) (SrvA.secOf s)) :=
-  SrvA.solveAdf_answers_exact_partial a n fms s h hs
+  SrvA.solveAdf_answers_exact_no_search a n fms s h hs
 
-/-- … and from the submitted text (naive parsing → storage → rebuild → `solveAdf`) -/
-theorem stored_answers_exact_naive_driver_model_partial (key code : String) (a : SAdf) (r : SRes) (s : Strategy)
+/-- … and from the submitted text (naive parsing → storage → rebuild → `solveAdf`; formerly
+`…_naive_driver_model_partial`) -/
+theorem stored_answers_exact_naive_driver_model_no_search (key code : String) (a : SAdf) (r : SRes) (s : Strategy)
     (h : parseNaive key code = .ok (a, r)) (hn : a.names.length ≤ VBOT) (hs : s ≠ .stableNogood) :
     ∃ fms res, conditions code = .ok (a.names, fms) ∧ solveAdf a s = .ok res ∧
       (SrvA.storedI3 res).Perm
         (Cli.specSection a.names.length (CliF.tablesOf a.names.length fms) (SrvA.secOf s)) := by
   obtain ⟨fms, hc, hd⟩ := SrvA.parseNaive_denotes key code a r h hn
-  obtain ⟨res, h1, h2⟩ := SrvA.solveAdf_answers_exact_partial a _ fms s hd hs
+  obtain ⟨res, h1, h2⟩ := SrvA.solveAdf_answers_exact_no_search a _ fms s hd hs
   exact ⟨fms, res, hc, h1, h2⟩
 
 /-- **the same at the level of the definitions** (`SrvA.PropAnswer`): ground stores the least fixpoint
@@ -366,7 +369,7 @@ theorem denotes1 : SrvA.Denotes { names := ["a", "b"], nodes := tab1, ac := [4, 
 specification's answer, evaluated by the kernel) — a statement with content in both directions -/
 example : ∃ res, solveAdf { names := ["a", "b"], nodes := tab1, ac := [4, 5] } .stable = .ok res ∧
     (SrvA.storedI3 res).Perm [[some true, some false], [some false, some true]] := by
-  obtain ⟨res, h1, h2⟩ := stored_answers_exact_driver_model_partial _ 2 _ .stable denotes1 (by decide)
+  obtain ⟨res, h1, h2⟩ := stored_answers_exact_driver_model_no_search _ 2 _ .stable denotes1 (by decide)
   refine ⟨res, h1, ?_⟩
   have e : Cli.specSection 2 (CliF.tablesOf 2 [.not (.atom 1), .not (.atom 0)]) (SrvA.secOf .stable) =
       [[some true, some false], [some false, some true]] := by decide
@@ -376,7 +379,7 @@ example : ∃ res, solveAdf { names := ["a", "b"], nodes := tab1, ac := [4, 5] }
 /-- … and for `Complete` additionally the all-undecided interpretation -/
 example : ∃ res, solveAdf { names := ["a", "b"], nodes := tab1, ac := [4, 5] } .complete = .ok res ∧
     (SrvA.storedI3 res).Perm [[none, none], [some true, some false], [some false, some true]] := by
-  obtain ⟨res, h1, h2⟩ := stored_answers_exact_driver_model_partial _ 2 _ .complete denotes1 (by decide)
+  obtain ⟨res, h1, h2⟩ := stored_answers_exact_driver_model_no_search _ 2 _ .complete denotes1 (by decide)
   refine ⟨res, h1, ?_⟩
   have e : Cli.specSection 2 (CliF.tablesOf 2 [.not (.atom 1), .not (.atom 0)]) (SrvA.secOf .complete) =
       [[none, none], [some true, some false], [some false, some true]] := by decide
@@ -402,5 +405,437 @@ def allSix : List Strategy := [.ground, .complete, .stable, .stableCountingA, .s
 #guard (match parseNaive "k" code1 with
   | .ok (a, _) => (match solveAdf a .stableNogood with | .ok r => r.map AcG.ac == [[1, 0], [0, 1]] | .error _ => false)
   | .error _ => false)
+
+/-! ## 7. the service: the server model instantiated with the concrete library models
+
+`SrvC.libEnv o = SrvC.mkEnv true o` is the environment the driver runs (`Drv/Http.lean` imports the
+definition from `ServerConcrete.lean`): `parse .naive = parseNaive`, `solve = solveAdf`; for HYBRID
+parsing the outcome class is computed (`parseOutcome`) and the stored table is the one adopted from
+the implementation (`o.hyb`) — theorems about hybrid parsing therefore assume `SrvA.Denotes` of the
+adopted table, which the run-time check `storedAdfOK` establishes.
+All statements hold in EVERY server state (so in every reachable one). Hypotheses of the form
+"the task `(j, n)` is …, the addressed document exists" describe the moment of the write; in the Rust
+(and the model) a document can be deleted and re-created, or its owner renamed, while a task runs —
+then the write goes to whatever document carries the (user, name) pair at that moment (finding D9) —
+which is why these are hypotheses and not consequences of reachability. -/
+
+section service
+open SrvC
+
+/-- the service's environment is the library: the theorems of section 6 about `parseNaive` /
+`solveAdf` are statements about what the service's tasks compute -/
+theorem service_env_is_library (o : Oracle) :
+    (∀ code, (libEnv o).parse .naive code = parseNaive (parseKey .naive code) code) ∧
+    (∀ a s, (libEnv o).solve a s = solveAdf a s) := ⟨fun _ => rfl, fun _ _ => rfl⟩
+
+/-- **parse task, success path** (naive parsing): see `SrvC.parse_task_stores_framework` -/
+theorem parse_task_stores_framework (o : Oracle) (db : Db String SHash SAdf SRes) (j n : Nat)
+    (t : TaskRec String SAdf) (code : String) (names : List String) (fms : List Fm)
+    (ht : nthOf j n db.tasks = some t) (hin : t.input = .parse code .naive)
+    (hlive : t.blockingDone = true ∧ t.written = false)
+    (hacc : conditions code = .ok (names, fms)) (hn : names.length ≤ VBOT)
+    (p : Problem String SAdf SRes) (hp : db.problems.find? (isProb t.username t.name) = some p) :
+    ∃ a : SAdf,
+      (dbEv (libEnv o) db (.write j n)).problems.find? (isProb t.username t.name) =
+        some { p with adf := .some a, parseOnly := .some [⟨a.ac, graphOf a.names a.nodes a.ac⟩] } ∧
+      (libEnv o).parse .naive code = .ok (a, [⟨a.ac, graphOf a.names a.nodes a.ac⟩]) ∧
+      a.names = names ∧ SrvA.Denotes a names.length fms ∧ GraphHyp a.names a.nodes a.ac :=
+  SrvC.parse_task_stores_framework o db j n t code names fms ht hin hlive hacc hn p hp
+
+/-- **parse task, success path** (hybrid parsing): the adopted table and its graph are stored -/
+theorem parse_task_stores_adopted (o : Oracle) (db : Db String SHash SAdf SRes) (j n : Nat)
+    (t : TaskRec String SAdf) (code : String) (x : List String × List Fm) (a : SAdf)
+    (ht : nthOf j n db.tasks = some t) (hin : t.input = .parse code .hybrid)
+    (hlive : t.blockingDone = true ∧ t.written = false)
+    (hacc : conditions code = .ok x) (hl : lookupS (parseKey .hybrid code) o.hyb = some a)
+    (p : Problem String SAdf SRes) (hp : db.problems.find? (isProb t.username t.name) = some p) :
+    (dbEv (libEnv o) db (.write j n)).problems.find? (isProb t.username t.name) =
+      some { p with adf := .some a, parseOnly := .some [⟨a.ac, graphOf a.names a.nodes a.ac⟩] } :=
+  SrvC.parse_task_stores_adopted o db j n t code x a ht hin hlive hacc hl p hp
+
+/-- **unparseable code, the service, both parsing strategies**: an error is stored in `adf` and in
+`parse_only` — never an answer (`parse_error_reported` with the concrete library) -/
+theorem parse_task_stores_error (o : Oracle) (db : Db String SHash SAdf SRes) (j n : Nat)
+    (t : TaskRec String SAdf) (code : String) (parsing : Parsing) (e : Err)
+    (ht : nthOf j n db.tasks = some t) (hin : t.input = .parse code parsing)
+    (hlive : t.blockingDone = true ∧ t.written = false) (herr : conditions code = .error e)
+    (p : Problem String SAdf SRes) (hp : db.problems.find? (isProb t.username t.name) = some p) :
+    (dbEv (libEnv o) db (.write j n)).problems.find? (isProb t.username t.name) =
+      some { p with adf := .error e, parseOnly := .error e } :=
+  parse_error_reported (libEnv o) db j n t code parsing e ht hin hlive (libEnv_parse_error_iff o code e herr parsing) p hp
+
+/-- **the solve request works on the STORED framework**: an accepted `PUT /adf/{name}/solve` found the
+document, read its stored framework `a`, and spawned exactly the task `solve a s` for this user,
+problem and strategy -/
+theorem solve_request_uses_stored_framework (o : Oracle) (st : State String SHash SAdf SRes) (jar : Nat)
+    (name : String) (s : Strategy) (h : (ServerM.step (libEnv o) st ⟨jar, .solve name s⟩).2.status = 200) :
+    ∃ u p a, st.sess jar = some u ∧ st.db.problems.find? (isProb u name) = some p ∧ p.adf = .some a ∧
+      (ServerM.step (libEnv o) st ⟨jar, .solve name s⟩).1.db.tasks =
+        st.db.tasks ++ [{ jar := jar, username := u, name := name, input := .solve a s }] ∧
+      (ServerM.step (libEnv o) st ⟨jar, .solve name s⟩).1.db.problems = st.db.problems :=
+  solve_accepted (libEnv o) st jar name s h
+
+/-- **solve task, success path**: the document stores exactly `solveAdf a s` — the library model's
+answer for the stored framework — under the addressed strategy, and that answer is the definitional
+one for the conditions `a` denotes (`hh`: the nogood search halted within the bound; `rfl` unless
+`s = StableNogood`) -/
+theorem solve_task_stores_answer (o : Oracle) (db : Db String SHash SAdf SRes) (j n : Nat)
+    (t : TaskRec String SAdf) (a : SAdf) (s : Strategy) (nn : Nat) (fms : List Fm)
+    (ht : nthOf j n db.tasks = some t) (hin : t.input = .solve a s)
+    (hlive : t.blockingDone = true ∧ t.written = false)
+    (hd : SrvA.Denotes a nn fms) (hh : SrvA.strategyHalts 1000000 a s = true)
+    (p : Problem String SAdf SRes) (hp : db.problems.find? (isProb t.username t.name) = some p) :
+    ∃ res : SRes,
+      (dbEv (libEnv o) db (.write j n)).problems.find? (isProb t.username t.name) =
+        some { p with res := p.res.set s (.some res) } ∧
+      (libEnv o).solve a s = .ok res ∧
+      (SrvA.storedI3 res).Perm (Cli.specSection nn (CliF.tablesOf nn fms) (SrvA.secOf s)) ∧
+      SrvA.PropAnswer nn (fms.map Fm.sem) s (SrvA.storedI3 res) :=
+  SrvC.solve_task_stores_answer o db j n t a s nn fms ht hin hlive hd hh p hp
+
+/-- **… and nowhere else**: a task's write leaves the document of every other (user, problem) pair,
+the users and the running set as they were; within the addressed document only the addressed
+strategy's slot changes (the record update in `solve_task_stores_answer` and `Results.get_set_other`) -/
+theorem write_touches_only_its_target (o : Oracle) (db : Db String SHash SAdf SRes) (j n : Nat) :
+    (∀ u' n', (∀ t, nthOf j n db.tasks = some t → ¬ (u' = t.username ∧ n' = t.name)) →
+      (dbEv (libEnv o) db (.write j n)).problems.find? (isProb u' n') = db.problems.find? (isProb u' n')) ∧
+    (dbEv (libEnv o) db (.write j n)).users = db.users ∧ (dbEv (libEnv o) db (.write j n)).running = db.running ∧
+    (∀ (r : Results SRes) (s s' : Strategy) (v : OWE SRes), s' ≠ s → (r.set s v).get s' = r.get s') :=
+  ⟨fun u' n' h => write_elsewhere_unchanged (libEnv o) db j n u' n' h, (write_users_running (libEnv o) db j n).1,
+   (write_users_running (libEnv o) db j n).2, fun r s s' v h => Results.get_set_other r s s' v h⟩
+
+/-- **`GET` returns what is stored** (and changes nothing, so repeated gets agree) -/
+theorem get_returns_stored (o : Oracle) (st : State String SHash SAdf SRes) (jar : Nat) (u name : String)
+    (p : Problem String SAdf SRes) (hs : st.sess jar = some u) (hf : st.db.problems.find? (isProb u name) = some p) :
+    ∃ ts, (ServerM.step (libEnv o) st ⟨jar, .get name⟩).2 =
+        ⟨200, .keep, .problem ⟨p.name, p.code, p.parsing, p.parseOnly, p.res, ts⟩⟩ ∧
+      (ServerM.step (libEnv o) st ⟨jar, .get name⟩).1.db = st.db :=
+  ServerM.get_returns_stored (libEnv o) st jar u name p hs hf
+
+/-- **served_answer**: the answer a user retrieves after the solve task has written -/
+theorem served_answer (o : Oracle) (st : State String SHash SAdf SRes) (j n jar : Nat)
+    (t : TaskRec String SAdf) (a : SAdf) (s : Strategy) (nn : Nat) (fms : List Fm)
+    (ht : nthOf j n st.db.tasks = some t) (hin : t.input = .solve a s)
+    (hlive : t.blockingDone = true ∧ t.written = false)
+    (hd : SrvA.Denotes a nn fms) (hh : SrvA.strategyHalts 1000000 a s = true)
+    (p : Problem String SAdf SRes) (hp : st.db.problems.find? (isProb t.username t.name) = some p)
+    (hs : st.sess jar = some t.username) :
+    ∃ (res : SRes) (i : Info String SRes),
+      (ServerM.step (libEnv o) (stepEv (libEnv o) st (.write j n)).1 ⟨jar, .get t.name⟩).2 = ⟨200, .keep, .problem i⟩ ∧
+      i.name = p.name ∧ i.code = p.code ∧ i.parsing = p.parsing ∧ i.parseOnly = p.parseOnly ∧
+      i.res.get s = .some res ∧ (∀ s', s' ≠ s → i.res.get s' = p.res.get s') ∧
+      (libEnv o).solve a s = .ok res ∧
+      SrvA.PropAnswer nn (fms.map Fm.sem) s (SrvA.storedI3 res) :=
+  SrvC.served_answer o st j n jar t a s nn fms ht hin hlive hd hh p hp hs
+
+/-- **served_answer_for_code** (the final corollary, naive parsing): the answer a user retrieves for
+strategy `s` on the submitted text `code` is the set of grounded / complete / stable models of the
+framework denoted by the text — for each of the six strategies. `hparse`: the framework the solve
+task works on is the service's parse result for `code` (stored by `parse_task_stores_framework`, read
+by `solve_request_uses_stored_framework`). `hh` (`SrvA.strategyHalts 1000000 a s`): the nogood-learning
+search of `StableNogood` reached its `done` state within the 10^6 iterations the executable model
+allows (the Rust loop has no bound); it is `true` by `rfl` for the other five strategies
+(`strategyHalts_five`) and holds for every sufficiently large bound (`strategyHalts_eventually`). -/
+theorem served_answer_for_code (o : Oracle) (st : State String SHash SAdf SRes) (j n jar : Nat)
+    (t : TaskRec String SAdf) (code : String) (a : SAdf) (r : SRes) (s : Strategy)
+    (ht : nthOf j n st.db.tasks = some t) (hin : t.input = .solve a s)
+    (hlive : t.blockingDone = true ∧ t.written = false)
+    (hparse : (libEnv o).parse .naive code = .ok (a, r)) (hn : a.names.length ≤ VBOT)
+    (hh : SrvA.strategyHalts 1000000 a s = true)
+    (p : Problem String SAdf SRes) (hp : st.db.problems.find? (isProb t.username t.name) = some p)
+    (hs : st.sess jar = some t.username) :
+    ∃ (fms : List Fm) (res : SRes) (i : Info String SRes),
+      conditions code = .ok (a.names, fms) ∧
+      (ServerM.step (libEnv o) (stepEv (libEnv o) st (.write j n)).1 ⟨jar, .get t.name⟩).2 = ⟨200, .keep, .problem i⟩ ∧
+      i.res.get s = .some res ∧ (∀ s', s' ≠ s → i.res.get s' = p.res.get s') ∧
+      SrvA.PropAnswer a.names.length (fms.map Fm.sem) s (SrvA.storedI3 res) :=
+  SrvC.served_answer_for_code o st j n jar t code a r s ht hin hlive hparse hn hh p hp hs
+
+theorem strategyHalts_five (fuel : Nat) (a : SAdf) (s : Strategy) (h : s ≠ .stableNogood) :
+    SrvA.strategyHalts fuel a s = true := SrvC.strategyHalts_five fuel a s h
+
+theorem strategyHalts_eventually (a : SAdf) (nn : Nat) (fms : List Fm) (s : Strategy) (hd : SrvA.Denotes a nn fms) :
+    ∃ F0, ∀ fuel, F0 ≤ fuel → SrvA.strategyHalts fuel a s = true := SrvC.strategyHalts_eventually a nn fms s hd
+
+/-! ### the storage round trip -/
+
+/-- **storage_roundtrip_identity**: `Adf → SimplifiedAdf` (every index printed as a decimal string,
+the name map entry-wise) `→ Adf` (every string parsed back, node list replayed through `Bdd::node`)
+never panics and is the identity on (ordering, node table, acceptance conditions); the re-hydrated
+store is well formed and every handle denotes the function it denoted before -/
+theorem storage_roundtrip_identity (a : SrvRT.LibAdf) (w : WF a.bdd) :
+    ∃ b, (SrvRT.SimpAdf.ofLib a).toLib = some b ∧ b.ordering = a.ordering ∧ b.bdd.nodes = a.bdd.nodes ∧
+      b.ac = a.ac ∧ WF b.bdd ∧ ∀ t σ, eval b.bdd t σ = eval a.bdd t σ :=
+  SrvRT.roundtrip_identity a w
+
+/-- the model's stored `SAdf` is the decoded document, and the model's solve task is solving the
+re-hydrated object -/
+theorem solve_task_is_solving_rehydrated (fuel : Nat) (key : String) (a : SrvRT.LibAdf) (s : Strategy) :
+    ∃ b sa, (SrvRT.SimpAdf.ofLib a).toLib = some b ∧ (SrvRT.SimpAdf.ofLib a).toSAdf key = some sa ∧
+      SrvA.solveAdfF fuel sa s = .ok (SrvRT.solveOn fuel b.ordering.names b.bdd b.ac s) :=
+  SrvRT.solve_rehydrated fuel key a s
+
+/-- **solving after the round trip = solving the original object** (same multiset of three-valued
+interpretations, namely the specification's) -/
+theorem solve_after_roundtrip_same (fuel : Nat) (a : SrvRT.LibAdf) (n : Nat) (fms : List Fm) (s : Strategy)
+    (w : WF a.bdd) (hd : SrvA.Denotes { names := a.ordering.names, nodes := a.bdd.nodes, ac := a.ac } n fms)
+    (hh1 : CliF.sectionHaltsF fuel .simple (SrvA.secOf s) a.bdd n a.ac = true)
+    (hh2 : SrvA.strategyHalts fuel { names := a.ordering.names, nodes := a.bdd.nodes, ac := a.ac } s = true) :
+    (SrvA.storedI3 (SrvRT.solveOn fuel a.ordering.names a.bdd a.ac s)).Perm
+      (SrvA.storedI3 (SrvRT.solveOn fuel a.ordering.names (rebuild a.bdd.nodes) a.ac s)) ∧
+    (SrvA.storedI3 (SrvRT.solveOn fuel a.ordering.names a.bdd a.ac s)).Perm
+      (Cli.specSection n (CliF.tablesOf n fms) (SrvA.secOf s)) :=
+  SrvRT.solve_roundtrip_same fuel a n fms s w hd hh1 hh2
+
+/-! ### the graph builder's assumptions are consequences -/
+
+/-- **graph_hyp_of_accepted_text**: for every framework that came from an accepted text (naive
+parsing) the assumptions `GraphHyp` of `graph_reachable` / `graph_edges` / `graph_walk` hold: distinct
+names (the parser keeps the first occurrence of a statement), every inner node tests a named
+statement (store operations only reuse variables), well-formed table, roots inside it -/
+theorem graph_hyp_of_accepted_text (key code : String) (a : SAdf) (r : SRes) (h : parseNaive key code = .ok (a, r))
+    (hn : a.names.length ≤ VBOT) : GraphHyp a.names a.nodes a.ac :=
+  parseNaive_graphHyp key code a r h hn
+
+/-- **graph_hyp_of_functions**: … and for ANY well-formed table (e.g. the store after solving) whose
+roots denote functions of the named statements only -/
+theorem graph_hyp_of_functions {names : List String} {ns : Array Node} {ac : List Nat} (w : TableWF ns)
+    (hnd : names.Nodup) (hr : ∀ r ∈ ac, r < ns.size)
+    (hdet : ∀ r ∈ ac, TT.DetBy names.length (eval ⟨ns, {}, {}, {}⟩ r)) : GraphHyp names ns ac :=
+  graphHyp_of_detBy w hnd hr hdet
+
+/-- the parse-only graph of an accepted text: walking from the root of statement `i` evaluates the
+condition of statement `i` as written in the text -/
+theorem parse_graph_walk (key code : String) (a : SAdf) (r : SRes) (h : parseNaive key code = .ok (a, r))
+    (hn : a.names.length ≤ VBOT) :
+    ∃ fms, conditions code = .ok (a.names, fms) ∧
+      ∀ (i : Nat) (f : Fm), fms[i]? = some f → ∀ (σ : Asg) (fuel : Nat), a.ac.getD i 0 < fuel →
+        walk (graphOf a.names a.nodes a.ac) a.names σ fuel (a.ac.getD i 0) = some (f.sem σ) := by
+  obtain ⟨fms, hc, hd⟩ := SrvA.parseNaive_denotes key code a r h hn
+  refine ⟨fms, hc, ?_⟩
+  intro i f hf σ fuel hfu
+  have hi : i < a.ac.length := by rw [hd.len, ← hd.flen]; exact (List.getElem?_eq_some_iff.mp hf).1
+  rw [SrvC.walk_root (parseNaive_graphHyp key code a r h hn) i hi σ fuel hfu]
+  have : a.ac[i]? = some (a.ac.getD i 0) := by simp [List.getD, hi]
+  rw [(hd.den i _ f this hf).2 σ]
+
+/-! ### "restricted by the shown model" -/
+
+/-- **ground_graph_restricted**: see `SrvC.ground_graph_restricted` -/
+theorem ground_graph_restricted (a : SAdf) (nn : Nat) (fms : List Fm) (hd : SrvA.Denotes a nn fms)
+    (hnd : a.names.Nodup) (hlen : a.names.length = nn) :
+    ∃ (v : List Nat) (ns : Array Node) (g : I3),
+      solveAdf a .ground = .ok [⟨v, graphOf a.names ns v⟩] ∧ GraphHyp a.names ns v ∧ v.length = nn ∧
+      g = v.map storeIsConst ∧ IsLfp (fms.map Fm.sem) g ∧
+      ∀ (i : Nat) (f : Fm), fms[i]? = some f → ∀ (σ : Asg) (fuel : Nat), v.getD i 0 < fuel →
+        walk (graphOf a.names ns v) a.names σ fuel (v.getD i 0) = some (f.sem (over σ 0 g)) :=
+  SrvC.ground_graph_restricted a nn fms hd hnd hlen
+
+/-- **stable_graph_restricted**: see `SrvC.stable_graph_restricted` -/
+theorem stable_graph_restricted (a : SAdf) (nn : Nat) (fms : List Fm) (s : Strategy) (hd : SrvA.Denotes a nn fms)
+    (hnd : a.names.Nodup) (hs : s ≠ .ground ∧ s ≠ .complete) (hh : SrvA.strategyHalts 1000000 a s = true) :
+    ∃ (res : SRes) (ns : Array Node), solveAdf a s = .ok res ∧
+      ∀ x ∈ res, x.graph = graphOf a.names ns x.ac ∧ GraphHyp a.names ns x.ac ∧
+        x.ac.length = nn ∧ Gam (fms.map Fm.sem) (x.ac.map storeIsConst) = x.ac.map storeIsConst ∧
+        ∀ (i : Nat) (_ : i < x.ac.length) (σ : Asg) (fuel : Nat), x.ac.getD i 0 < fuel →
+          ∃ b, storeIsConst (x.ac.getD i 0) = some b ∧
+            walk x.graph a.names σ fuel (x.ac.getD i 0) = some b :=
+  SrvC.stable_graph_restricted a nn fms s hd hnd hs hh
+
+/-- **graphs_faithful_under_the_shown_model** — the property's graph clause for ALL six strategies, in
+the form the run-time monitor `graphOK` checks it: for a stored framework `a` (distinct names, one per
+statement) denoting the conditions `fms`, every stored `AcAndGraph` `x` of the solve task's answer
+carries the graph of the final store's table for the roots `x.ac`; that graph satisfies `GraphHyp`
+(hence `graph_reachable`: exactly the reachable nodes, `graph_edges`: the table's lo/hi edges,
+`graph_walk`: root labels); and for EVERY assignment `σ` that extends the shown interpretation
+(`Agree σ (x.ac.map storeIsConst)`) walking from the root of statement `i` yields the value of
+statement `i`'s acceptance condition under `σ` — i.e. the diagram shown for `i` is the condition
+restricted by the shown model (a constant for a decided statement) -/
+theorem graphs_faithful_under_the_shown_model (a : SAdf) (nn : Nat) (fms : List Fm) (s : Strategy)
+    (hd : SrvA.Denotes a nn fms) (hnd : a.names.Nodup) (hlen : a.names.length = nn)
+    (hh : SrvA.strategyHalts 1000000 a s = true) :
+    ∃ (res : SRes) (ns : Array Node), solveAdf a s = .ok res ∧
+      ∀ x ∈ res, x.graph = graphOf a.names ns x.ac ∧ GraphHyp a.names ns x.ac ∧
+        ∀ (i : Nat) (f : Fm), fms[i]? = some f → ∀ (σ : Asg), Agree σ (x.ac.map storeIsConst) →
+          ∀ fuel, x.ac.getD i 0 < fuel → walk x.graph a.names σ fuel (x.ac.getD i 0) = some (f.sem σ) := by
+  by_cases hg : s = .ground
+  · subst hg
+    obtain ⟨v, ns, h1, h2, h3⟩ := SrvC.ground_graph_under_model a nn fms hd hnd hlen
+    refine ⟨_, ns, h1, fun x hx => ?_⟩
+    simp only [List.mem_singleton] at hx
+    subst hx
+    exact ⟨rfl, h2, h3⟩
+  · by_cases hc : s = .complete
+    · subst hc
+      exact SrvC.complete_graph_under_model a nn fms hd hnd hlen
+    · exact SrvC.stable_graph_under_model a nn fms s hd hnd ⟨hg, hc⟩ hh
+
+end service
+
+/-! ### non-vacuity of section 7 -/
+open SrvC
+
+/-- the stored framework of `s(a).s(b).ac(a,neg(b)).ac(b,neg(a)).` -/
+def a1 : SAdf := { names := ["a", "b"], nodes := tab1, ac := [4, 5] }
+/-- a document of user `u` holding it (not yet solved), a solve task for `Stable` whose blocking part
+has ended, and `u`'s session in jar 0 -/
+def p1 : Problem String SAdf SRes := { name := "p", username := "u", code := code1, parsing := .naive, adf := .some a1 }
+def t1 : TaskRec String SAdf := { jar := 0, username := "u", name := "p", input := .solve a1 .stable, blockingDone := true }
+def st1 : State String SHash SAdf SRes :=
+  { db := { problems := [p1], tasks := [t1] }, sess := fun j => if j = 0 then some "u" else none }
+
+/-- `served_answer` on this state: after the write, `GET /adf/p` by `u` returns under `stable` exactly
+the two stable models `a¬b`, `¬a b`, and still nothing under `complete` -/
+example (o : Oracle) : ∃ (res : SRes) (i : Info String SRes),
+    (ServerM.step (libEnv o) (stepEv (libEnv o) st1 (.write 0 0)).1 ⟨0, .get "p"⟩).2 = ⟨200, .keep, .problem i⟩ ∧
+    i.res.get .stable = .some res ∧ i.res.get .complete = .none ∧
+    (SrvA.storedI3 res).Perm [[some true, some false], [some false, some true]] := by
+  obtain ⟨res, i, h1, _, _, _, _, h6, h7, h8, _⟩ := served_answer o st1 0 0 0 t1 a1 .stable 2 _ rfl rfl ⟨rfl, rfl⟩
+    denotes1 rfl p1 (by simp [st1, isProb, p1, t1]) rfl
+  obtain ⟨res', e1, e2⟩ := stored_answers_exact_driver_model_no_search a1 2 _ .stable denotes1 (by decide)
+  have e : Cli.specSection 2 (CliF.tablesOf 2 [.not (.atom 1), .not (.atom 0)]) (SrvA.secOf .stable) =
+      [[some true, some false], [some false, some true]] := by decide
+  rw [e] at e2
+  have : res = res' := by
+    have h8' : solveAdf a1 .stable = .ok res := h8
+    rw [e1] at h8'; cases h8'; rfl
+  subst this
+  exact ⟨res, i, h1, h6, by rw [h7 .complete (by decide)]; rfl, e2⟩
+
+/-- an accepted solve request (hypothesis of `solve_request_uses_stored_framework`) -/
+example : (ServerM.step (libEnv {}) { st1 with db := { problems := [p1] } } ⟨0, .solve "p" .complete⟩).2.status = 200 := by
+  decide
+
+/-- `ground_graph_restricted` on this framework: the grounded interpretation decides nothing, so the
+graph shows the conditions themselves -/
+example : ∃ (v : List Nat) (ns : Array Node) (g : I3),
+    solveAdf a1 .ground = .ok [⟨v, graphOf a1.names ns v⟩] ∧ GraphHyp a1.names ns v ∧ IsLfp ([Fm.not (.atom 1), Fm.not (.atom 0)].map Fm.sem) g ∧
+    ∀ σ fuel, v.getD 0 0 < fuel → walk (graphOf a1.names ns v) a1.names σ fuel (v.getD 0 0) = some (!(over σ 0 g 1)) := by
+  obtain ⟨v, ns, g, h1, h2, _, _, h5, h6⟩ := ground_graph_restricted a1 2 _ denotes1 (by decide) rfl
+  exact ⟨v, ns, g, h1, h2, h5, fun σ fuel hf => h6 0 _ rfl σ fuel hf⟩
+
+/-- `graphs_faithful_under_the_shown_model` on this framework, `Complete`: three stored interpretations
+(section 6), each with a faithful graph -/
+example : ∃ (res : SRes) (ns : Array Node), solveAdf a1 .complete = .ok res ∧
+    (SrvA.storedI3 res).Perm [[none, none], [some true, some false], [some false, some true]] ∧
+    ∀ x ∈ res, x.graph = graphOf a1.names ns x.ac ∧ GraphHyp a1.names ns x.ac ∧
+      ∀ (σ : Asg), Agree σ (x.ac.map storeIsConst) → ∀ fuel, x.ac.getD 0 0 < fuel →
+        walk x.graph a1.names σ fuel (x.ac.getD 0 0) = some (!σ 1) := by
+  obtain ⟨res, ns, h1, h2⟩ := graphs_faithful_under_the_shown_model a1 2 _ .complete denotes1 (by decide) rfl rfl
+  obtain ⟨res', e1, e2⟩ := stored_answers_exact_driver_model_no_search a1 2 _ .complete denotes1 (by decide)
+  have e : Cli.specSection 2 (CliF.tablesOf 2 [.not (.atom 1), .not (.atom 0)]) (SrvA.secOf .complete) =
+      [[none, none], [some true, some false], [some false, some true]] := by decide
+  rw [e] at e2
+  rw [h1] at e1; cases e1
+  exact ⟨res, ns, h1, e2, fun x hx => ⟨(h2 x hx).1, (h2 x hx).2.1, fun σ hag fuel hf => (h2 x hx).2.2 0 _ rfl σ hag fuel hf⟩⟩
+
+/-- the round trip on a well-formed store (the rebuilt table `tab1`) -/
+example : ∃ b, (SrvRT.SimpAdf.ofLib ⟨⟨["a", "b"], [("a", 0), ("b", 1)]⟩, rebuild tab1, [4, 5]⟩).toLib = some b ∧
+    b.ordering.mapping = [("a", 0), ("b", 1)] ∧ b.bdd.nodes = tab1 ∧ b.ac = [4, 5] := by
+  obtain ⟨b, h1, h2, h3, h4, _⟩ := storage_roundtrip_identity ⟨⟨["a", "b"], [("a", 0), ("b", 1)]⟩, rebuild tab1, [4, 5]⟩
+    (rebuild_any_wellformed_table tab1 hyp1.wf).1
+  exact ⟨b, h1, by rw [h2], by rw [h3]; exact (rebuild_any_wellformed_table tab1 hyp1.wf).2, h4⟩
+
+/-! the hypotheses of `parse_task_stores_framework` / `served_answer_for_code` that need the parser run
+on a string literal (not reducible in the kernel) are checked by evaluation: the text is accepted with
+two statements, and the bound hypothesis holds for all six strategies on its framework (see also the
+`#guard`s of section 6) -/
+#guard (match conditions code1 with | .ok (ns, fs) => ns == ["a", "b"] && fs.length == 2 | .error _ => false)
+#guard (match (SrvC.libEnv {}).parse .naive code1 with
+  | .ok (a, _) => allSix.all (fun s => SrvA.strategyHalts 1000000 a s)
+  | .error _ => false)
+
+/-! ## 8. every reachable state of a deletion-free history
+
+The hypotheses "at the moment of the write" of section 7 are consequences of reachability for
+histories without `DELETE /adf/{name}`, `DELETE /users/delete`, `PUT /users/update` (`Event.keeps`);
+with them they are not (`histStale` below, finding D9). -/
+
+/-- **reachable_results_belong_to_the_code** (any environment): see `ServerReach.lean` -/
+theorem reachable_results_belong_to_the_code {T H A R : Type} [DecidableEq T] (E : Env T H A R) (es : List (Event T))
+    (hk : ∀ e ∈ es, e.keeps = true) (p : Problem T A R) (hp : p ∈ (runAll E {} es).1.db.problems) :
+    (∀ a, p.adf = .some a → ∃ r, E.parse p.parsing p.code = .ok (a, r)) ∧
+    (∀ s res, p.res.get s = .some res → ∃ a r, E.parse p.parsing p.code = .ok (a, r) ∧ E.solve a s = .ok res) :=
+  ServerM.reachable_results_belong_to_the_code E es hk p hp
+
+/-- a toy library: code `9` does not parse, every other code `c` parses to the framework `c`, whose
+answer under every strategy is `c + 100` -/
+def Etoy : Env Nat Nat Nat Nat where
+  emp := 0
+  hash := fun s p => s + p
+  verify := fun h p => h == p
+  parse := fun _ code => if code = 9 then .error .parseError else .ok (code, code)
+  solve := fun a _ => .ok (a + 100)
+
+/-- register, login, add problem 5 with code 7, parse task ends and writes, solve (Ground), the solve
+task ends and writes, a second user does the same with code 8 and `Complete` in between -/
+def histOk : List (Event Nat) :=
+  [.req ⟨0, .register 1 7 0⟩, .req ⟨0, .login 1 7⟩, .req ⟨0, .add 5 (some 7) none .naive 100 101⟩,
+   .req ⟨1, .add 5 (some 8) none .naive 200 201⟩, .finish 0 0, .write 0 0, .req ⟨0, .solve 5 .ground⟩,
+   .finish 1 0, .write 1 0, .req ⟨1, .solve 5 .complete⟩, .finish 1 1, .finish 0 1, .write 0 1, .write 1 1,
+   .req ⟨0, .get 5⟩]
+
+example : ∀ e ∈ histOk, e.keeps = true := by decide
+-- the reachable state: both documents carry the answer for their OWN code under the strategy asked for
+example : (runAll Etoy {} histOk).1.db.problems.map (fun p => (p.username, p.code, p.adf, p.res.ground, p.res.complete)) =
+    [(1, 7, .some 7, .some 107, .none), (200, 8, .some 8, .none, .some 108)] := by decide
+
+/-- the restriction to deletion-free histories is needed (finding D9): delete the problem while its
+parse task runs and re-create it with another code — the stale task's write lands in the new document,
+which then stores the framework of code 7 for code 8 -/
+def histStale : List (Event Nat) :=
+  [.req ⟨0, .register 1 7 0⟩, .req ⟨0, .login 1 7⟩, .req ⟨0, .add 5 (some 7) none .naive 100 101⟩,
+   .req ⟨0, .delete 5⟩, .req ⟨0, .add 5 (some 8) none .naive 100 101⟩, .finish 0 0, .write 0 0]
+
+example : (runAll Etoy {} histStale).1.db.problems.map (fun p => (p.code, p.adf)) = [(8, .some 7)] := by decide
+
+/-- **reachable_served_answer**: see `SrvC.reachable_served_answer` -/
+theorem reachable_served_answer (o : Oracle) (es : List (Event String)) (hk : ∀ e ∈ es, e.keeps = true)
+    (jar : Nat) (u name : String) (p : Problem String SAdf SRes) (s : Strategy) (res : SRes)
+    (hs : (runAll (libEnv o) {} es).1.sess jar = some u)
+    (hf : (runAll (libEnv o) {} es).1.db.problems.find? (isProb u name) = some p)
+    (hres : p.res.get s = .some res)
+    (hb : ∀ a r, (libEnv o).parse p.parsing p.code = .ok (a, r) →
+      ∃ nn fms, SrvA.Denotes a nn fms ∧ SrvA.strategyHalts 1000000 a s = true) :
+    ∃ (i : Info String SRes) (a : SAdf) (r : SRes) (nn : Nat) (fms : List Fm),
+      (ServerM.step (libEnv o) (runAll (libEnv o) {} es).1 ⟨jar, .get name⟩).2 = ⟨200, .keep, .problem i⟩ ∧
+      i.code = p.code ∧ i.res.get s = .some res ∧
+      (libEnv o).parse p.parsing p.code = .ok (a, r) ∧ SrvA.Denotes a nn fms ∧
+      SrvA.PropAnswer nn (fms.map Fm.sem) s (SrvA.storedI3 res) :=
+  SrvC.reachable_served_answer o es hk jar u name p s res hs hf hres hb
+
+/-- **reachable_served_answer_naive** (the property's first sentence for naive parsing, over histories):
+in every state reached from the empty server by a deletion-free history, the models `GET` shows under
+strategy `s` for a naively parsed document are exactly the definitional answer for the framework
+denoted by the document's code -/
+theorem reachable_served_answer_naive (o : Oracle) (es : List (Event String)) (hk : ∀ e ∈ es, e.keeps = true)
+    (jar : Nat) (u name : String) (p : Problem String SAdf SRes) (s : Strategy) (res : SRes)
+    (hs : (runAll (libEnv o) {} es).1.sess jar = some u)
+    (hf : (runAll (libEnv o) {} es).1.db.problems.find? (isProb u name) = some p)
+    (hnaive : p.parsing = .naive) (hres : p.res.get s = .some res)
+    (hb : ∀ a r, (libEnv o).parse .naive p.code = .ok (a, r) →
+      a.names.length ≤ VBOT ∧ SrvA.strategyHalts 1000000 a s = true) :
+    ∃ (i : Info String SRes) (names : List String) (fms : List Fm),
+      (ServerM.step (libEnv o) (runAll (libEnv o) {} es).1 ⟨jar, .get name⟩).2 = ⟨200, .keep, .problem i⟩ ∧
+      i.code = p.code ∧ i.res.get s = .some res ∧
+      conditions p.code = .ok (names, fms) ∧
+      SrvA.PropAnswer names.length (fms.map Fm.sem) s (SrvA.storedI3 res) :=
+  SrvC.reachable_served_answer_naive o es hk jar u name p s res hs hf hnaive hres hb
+
+/-! the hypotheses of `reachable_served_answer_naive` on a concrete history of the concrete service, by
+evaluation (the parser on a string literal does not reduce in the kernel): a deletion-free history after
+which `GET` finds the document, naively parsed, with a `StableNogood` result, and the bound hypothesis
+holds for its parse result -/
+def histSrv : List (Event String) :=
+  [.req ⟨0, .register "u" "pw" 0⟩, .req ⟨0, .login "u" "pw"⟩, .req ⟨0, .add "p" (some code1) none .naive "~t" "~p"⟩,
+   .finish 0 0, .write 0 0, .req ⟨0, .solve "p" .stableNogood⟩, .finish 0 1, .write 0 1]
+
+#guard histSrv.all Event.keeps
+#guard (match (runAll (libEnv {}) {} histSrv).1.db.problems.find? (isProb "u" "p") with
+  | some p => p.parsing == .naive && (p.res.get .stableNogood).isSome &&
+      (match (libEnv {}).parse .naive p.code with
+       | .ok (a, _) => decide (a.names.length ≤ VBOT) && SrvA.strategyHalts 1000000 a .stableNogood
+       | .error _ => false)
+  | none => false)
 
 end C16
